@@ -2,7 +2,7 @@ import ErdosVerif.Lemmas.SimProgressRun
 /-!
 Progress of the `simulate()` loop, part 7: the pool-level map `WorkerPool._placed_tasks`
 (which `get_placed_tasks()` reads) only mentions tasks that are resident on the worker it
-names (`PF`), in every state. Together with the residency invariant ("resident ⇒ RUNNING")
+names (`PFM`), in every state. Together with the residency invariant ("resident ⇒ RUNNING")
 this makes every task the loop looks at a RUNNING task.
 -/
 open Std.Do
@@ -15,7 +15,7 @@ the worker it names. -/
 def Pool.FwdOK (p : Pool) : Prop :=
   (AList.keys p.placed).Nodup ∧ ∀ q ∈ p.placed, ∃ ks, p.view[q.2]? = some ks ∧ q.1 ∈ ks
 
-def PF (s : SimS) : Prop := ∀ p ∈ s.pools.toList, Pool.FwdOK p
+def PFM (s : SimS) : Prop := ∀ p ∈ s.pools.toList, Pool.FwdOK p
 
 theorem Pool.FwdOK.same {p p' : Pool} (h : Pool.FwdOK p) (hv : p'.view = p.view ∧ p'.placed = p.placed) : Pool.FwdOK p' := by
   unfold Pool.FwdOK; rw [hv.1, hv.2]; exact h
@@ -94,11 +94,11 @@ theorem Pool.fwd_removeTask (p : Pool) (t : Nat) (h : Pool.FwdOK p) : Pool.FwdOK
       rw [List.getElem?_set_ne (fun e => hqi e.symm)]; exact hk'
   · exact h.same hv
 
-theorem PF.congr (s s' : SimS) (h : PF s) (hp : s'.pools = s.pools) : PF s' := by
-  unfold PF; rw [hp]; exact h
+theorem PFM.congr (s s' : SimS) (h : PFM s) (hp : s'.pools = s.pools) : PFM s' := by
+  unfold PFM; rw [hp]; exact h
 
-theorem PF.set (s s' : SimS) (pi : Nat) (p p' : Pool) (h : PF s) (hpi : s.pools[pi]? = some p)
-    (hf : Pool.FwdOK p → Pool.FwdOK p') (hp : s'.pools = s.pools.setIfInBounds pi p') : PF s' := by
+theorem PFM.set (s s' : SimS) (pi : Nat) (p p' : Pool) (h : PFM s) (hpi : s.pools[pi]? = some p)
+    (hf : Pool.FwdOK p → Pool.FwdOK p') (hp : s'.pools = s.pools.setIfInBounds pi p') : PFM s' := by
   intro q hq
   rw [hp] at hq
   rcases Array.mem_or_eq_of_mem_setIfInBounds (Array.mem_toList_iff.mp hq) with h1 | h1
@@ -106,23 +106,23 @@ theorem PF.set (s s' : SimS) (pi : Nat) (p p' : Pool) (h : PF s) (hpi : s.pools[
   · subst h1
     exact hf (h p (Array.mem_toList_iff.mpr (Array.mem_of_getElem? hpi)))
 
-abbrev FA : Assertion (.except SErr (.arg SimS .pure)) := fun s => ⌜PF s⌝
+abbrev FA : Assertion (.except SErr (.arg SimS .pure)) := fun s => ⌜PFM s⌝
 abbrev KeepsF {α} (x : SimM α) : Prop := ⦃FA⦄ x ⦃post⟨fun _ => FA, fun _ _ => ⌜True⌝⟩⦄
-abbrev loopF {β} : PostCond β (.except SErr (.arg SimS .pure)) := post⟨fun _ s => ⌜PF s⌝, fun _ _ => ⌜True⌝⟩
+abbrev loopF {β} : PostCond β (.except SErr (.arg SimS .pure)) := post⟨fun _ s => ⌜PFM s⌝, fun _ _ => ⌜True⌝⟩
 
-macro "pf_close" : tactic => `(tactic| first
+macro "pfm_close" : tactic => `(tactic| first
   | assumption
   | trivial
   | exact ExceptConds.entails.refl _
   | (intro s h; exact h)
   | (intros; trivial)
   | (rs_hyps h => exact h)
-  | (rs_hyps h => exact PF.congr _ _ h rfl)
-  | (rs_hyps h => exact PF.set _ _ _ _ _ h ‹_› (fun hf => hf.same (by first
+  | (rs_hyps h => exact PFM.congr _ _ h rfl)
+  | (rs_hyps h => exact PFM.set _ _ _ _ _ h ‹_› (fun hf => hf.same (by first
         | exact Pool.loadProfile_view _ _ _ _ | exact Pool.evictProfile_view _ _ _ | exact Pool.onWorker'_view _ _ _
         | exact ⟨Pool.view_stepProfiles _ _, Pool.placed_stepProfiles _ _⟩)) rfl)
-  | (rs_hyps h => exact PF.set _ _ _ _ _ h ‹_› (Pool.fwd_placeTask _ _ _ _ _) rfl)
-  | (rs_hyps h => exact PF.set _ _ _ _ _ h ‹_› (Pool.fwd_removeTask _ _) rfl))
+  | (rs_hyps h => exact PFM.set _ _ _ _ _ h ‹_› (Pool.fwd_placeTask _ _ _ _ _) rfl)
+  | (rs_hyps h => exact PFM.set _ _ _ _ _ h ‹_› (Pool.fwd_removeTask _ _) rfl))
 
 /-- Inline the small primitives; every verification condition is a frame condition. -/
 macro "pf_gen" " [" ts:term,* "]" : tactic =>
@@ -134,16 +134,16 @@ theorem logUtilization_f (time : Int) : KeepsF (logUtilization time) := by
   pf_gen [logUtilization]
   case inv1 => exact loopF
   case inv2 => exact loopF
-  all_goals pf_close
+  all_goals pfm_close
 
 theorem schedulable_f (time : Int) : KeepsF (schedulable time) := by
   pf_gen [schedulable]
   case inv1 => exact loopF
-  all_goals pf_close
+  all_goals pfm_close
 
 theorem notifyGraphCompletion_f (gi : Nat) (finish : Int) : KeepsF (notifyGraphCompletion gi finish) := by
   pf_gen [notifyGraphCompletion]
-  all_goals pf_close
+  all_goals pfm_close
 
 theorem placementSkip_f (time : Int) (p : PlacementS) (drop : Bool) : KeepsF (placementSkip time p drop) := by
   have h1 := notifyGraphCompletion_f
@@ -151,24 +151,24 @@ theorem placementSkip_f (time : Int) (p : PlacementS) (drop : Bool) : KeepsF (pl
   case inv1 => exact loopF
   case inv2 => exact loopF
   case inv3 => exact loopF
-  all_goals pf_close
+  all_goals pfm_close
 
 theorem placementEvents_f (time : Int) (p : PlacementS) : KeepsF (placementEvents time p) := by
   have h1 := placementSkip_f
   pf_gen [placementEvents, h1]
-  all_goals pf_close
+  all_goals pfm_close
 
 theorem nextSchedulerEvent_f (evTime : Int) : KeepsF (nextSchedulerEvent evTime) := by
   have h1 := schedulable_f
   pf_gen [nextSchedulerEvent, h1]
   case inv1 => exact loopF
-  all_goals pf_close
+  all_goals pfm_close
 
 theorem handleSchedulerStart_f (ev : SEvent) : KeepsF (handleSchedulerStart ev) := by
   have h1 := schedulable_f
   have h2 := logUtilization_f
   pf_gen [handleSchedulerStart, h1, h2]
-  all_goals pf_close
+  all_goals pfm_close
 
 theorem handleSchedulerFinish_f (ev : SEvent) : KeepsF (handleSchedulerFinish ev) := by
   have h1 := placementSkip_f
@@ -177,29 +177,29 @@ theorem handleSchedulerFinish_f (ev : SEvent) : KeepsF (handleSchedulerFinish ev
   pf_gen [handleSchedulerFinish, h1, h2, h3]
   case inv1 => exact loopF
   case inv2 => exact loopF
-  all_goals pf_close
+  all_goals pfm_close
 
 theorem handleTaskCancel_f (ev : SEvent) : KeepsF (handleTaskCancel ev) := by
   pf_gen [handleTaskCancel]
-  all_goals pf_close
+  all_goals pfm_close
 
 theorem handleTaskRelease_f (ev : SEvent) : KeepsF (handleTaskRelease ev) := by
   pf_gen [handleTaskRelease]
-  all_goals pf_close
+  all_goals pfm_close
 
 theorem handleTaskGraphRelease_f (ev : SEvent) : KeepsF (handleTaskGraphRelease ev) := by
   pf_gen [handleTaskGraphRelease]
-  all_goals pf_close
+  all_goals pfm_close
 
 theorem handleProfile_f (ev : SEvent) (load : Bool) : KeepsF (handleProfile ev load) := by
   pf_gen [handleProfile]
-  all_goals pf_close
+  all_goals pfm_close
 
 theorem handleUpdateWorkload_f (ev : SEvent) : KeepsF (handleUpdateWorkload ev) := by
   pf_gen [handleUpdateWorkload, releasable]
   case inv1 => exact loopF
   case inv2 => exact loopF
-  all_goals pf_close
+  all_goals pfm_close
 
 theorem handleTaskFinished_f (ev : SEvent) : KeepsF (handleTaskFinished ev) := by
   have h1 := notifyGraphCompletion_f
@@ -211,29 +211,29 @@ theorem handleTaskFinished_f (ev : SEvent) : KeepsF (handleTaskFinished ev) := b
   case inv5 => exact loopF
   case inv6 => exact loopF
   case inv7 => exact loopF
-  all_goals pf_close
+  all_goals pfm_close
 
 theorem placementNotReady_f (ev : SEvent) (t : TaskId) (p : PlacementS) : KeepsF (placementNotReady ev t p) := by
   pf_gen [placementNotReady]
   case inv1 => exact loopF
   case inv2 => exact loopF
-  all_goals pf_close
+  all_goals pfm_close
 
 theorem placementRow_f (t : TaskId) (pid : Nat) (time : Int) (st : Strategy) : KeepsF (placementRow t pid time st) := by
   pf_gen [placementRow]
-  all_goals pf_close
+  all_goals pfm_close
 
 theorem placementPlace_f (ev : SEvent) (t : TaskId) (p : PlacementS) (g : GraphS) (h : g.isReadyToRun t.t = true) :
     KeepsF (placementPlace ev t p g h) := by
   have h1 := placementRow_f
   pf_gen [placementPlace, h1]
-  all_goals pf_close
+  all_goals pfm_close
 
 theorem handleTaskPlacement_f (ev : SEvent) : KeepsF (handleTaskPlacement ev) := by
   have h1 := placementPlace_f ev
   have h2 := placementNotReady_f ev
   pf_gen [handleTaskPlacement, h1, h2]
-  all_goals pf_close
+  all_goals pfm_close
 
 theorem handleEvent_f (ev : SEvent) : KeepsF (handleEvent ev) := by
   have h_cancel := handleTaskCancel_f
@@ -247,7 +247,7 @@ theorem handleEvent_f (ev : SEvent) : KeepsF (handleEvent ev) := by
   have h_sf := handleSchedulerFinish_f
   have h_util := logUtilization_f
   pf_gen [handleEvent, h_cancel, h_prof, h_fin, h_tgr, h_rel, h_upd, h_place, h_ss, h_sf, h_util]
-  all_goals pf_close
+  all_goals pfm_close
 
 theorem step_f (dt : Int) : KeepsF (step dt) := by
   pf_gen [step]
@@ -256,7 +256,7 @@ theorem step_f (dt : Int) : KeepsF (step dt) := by
   case inv3 => exact loopF
   case inv4 => exact loopF
   case inv5 => exact loopF
-  all_goals pf_close
+  all_goals pfm_close
 
 theorem iter_f : KeepsF iter := by
   have h1 := step_f
@@ -265,14 +265,14 @@ theorem iter_f : KeepsF iter := by
   split
   · pf_gen [h1, h2]
     case inv1 => exact loopF
-    all_goals pf_close
+    all_goals pfm_close
   · mvcgen
-    all_goals pf_close
+    all_goals pfm_close
 
 theorem init_f : KeepsF init := by
   have h2 := logUtilization_f
   pf_gen [init, h2]
   case inv1 => exact loopF
-  all_goals pf_close
+  all_goals pfm_close
 
 end ErdosVerif.Model.Sim
